@@ -174,8 +174,13 @@ def make_solver(problem, cfg, **extra):
     if kind == "pi":
         kw["max_eval_iter"] = int(cfg.get("max_eval_iter", 100))
         kw["reset_values_for_each_policy_eval"] = bool(cfg.get("reset", False))
+    via_config = extra.pop("via_config", False)
     kw.update(extra)
-    return solver_class(kind)(problem=problem, **kw)
+    cls = solver_class(kind)
+    if via_config:
+        # same parameters, passed as a configuration object together with the problem instance
+        return cls(problem=problem, config=cls.Config(**kw))
+    return cls(problem=problem, **kw)
 
 
 def policy_to_indices(spec, policy) -> np.ndarray:
